@@ -210,6 +210,23 @@ def run(run, tier):
                     spec_ok = spec_ok and abs((psi(xf + h) - psi(xf - h)) / (2 * h) - psiP(xf)) < 1e-5 * max(1, abs(psiP(xf))) \
                         and abs((psiP(xf + h) - psiP(xf - h)) / (2 * h) - psiDP(xf)) < 1e-5 * max(1, abs(psiDP(xf)))
                 impl = ('OK', impl)
+                # the helpers are functions of the graph AS IT IS NOW: move one edge of the same graph object (same number of nodes and
+                # edges, another degree sequence) and ask again -- nothing remembered from the first call may leak into the answer
+                if type(G) is nx.Graph and spec_ok and stats['deg'] % 2 == 0:
+                    es = [e_ for e_ in G.edges() if e_[0] != e_[1]]; nodes_ = list(G.nodes())
+                    non = [(a, b) for a in nodes_ for b in nodes_ if repr(a) < repr(b) and not G.has_edge(a, b)]
+                    if es and non:
+                        (u_, v_), (a_, b_) = es[len(es) // 2], non[len(non) // 3]
+                        G.remove_edge(u_, v_); G.add_edge(a_, b_)
+                        ds2 = [d for _, d in G.degree()]; mean2 = sum(ds2) / N; m22 = sum(d * d - d for d in ds2) / N
+                        Pk2 = EoN.get_Pk(G); r02 = float(EoN.estimate_R0(G, transmissibility=float(T)))
+                        again = all(C.close(Pk2.get(k, 0) * N, ds2.count(k)) for k in set(ds2) | set(Pk2)) and (mean2 == 0 or C.close(r02, float(T) * m22 / mean2))
+                        stats['rewired_same_object'] = stats.get('rewired_same_object', 0) + 1
+                        if not again:
+                            spec_ok = False
+                            impl = ('OK', impl[1] + ['after moving edge %r to %r on the same graph object: get_Pk=%r estimate_R0=%r, degree histogram %r, T<k^2-k>/<k>=%r' % (
+                                (u_, v_), (a_, b_), dict(Pk2), r02, sorted(ds2), float(T) * m22 / mean2 if mean2 else None)])
+                        G.remove_edge(a_, b_); G.add_edge(u_, v_)
             except Exception as e:
                 impl = ('ERR', type(e).__name__); spec_ok = False
             tk = mo.split()
